@@ -26,6 +26,7 @@ WRAPS_COMMON = [
     "pthread_rwlock_rdlock", "pthread_rwlock_wrlock", "pthread_rwlock_unlock",
     "__cxa_guard_acquire", "__cxa_guard_release", "__cxa_guard_abort",
     "getenv", "fopen", "__assert_fail", "getauxval", "getuid", "geteuid", "getgid", "getegid", "secure_getenv",
+    "stat", "lstat", "access", "realpath", "readlink", "getcwd", "open", "open64", "openat", "opendir",
     "isalpha", "isalnum", "isdigit", "isspace", "isupper", "islower", "ispunct", "tolower", "toupper",
 ]
 # clang builds: the library's thread_locals go through __emutls_get_address, which the scheduler serves per task
@@ -37,7 +38,7 @@ UBSAN_HANDLERS = [
     "invalid_builtin", "alignment_assumption", "implicit_conversion", "nonnull_return_v1",
     "builtin_unreachable", "missing_return",
 ]
-TSAN_ATOMICS = ["load", "store", "exchange", "fetch_add", "fetch_sub",
+TSAN_ATOMICS = ["load", "store", "exchange", "fetch_add", "fetch_sub", "fetch_and", "fetch_or", "fetch_xor",
                 "compare_exchange_strong", "compare_exchange_weak"]
 
 HARNESS = ["main.cc", "cases.cc", "conc.cc", "c12.cc", "c14a.cc", "c19.cc", "engine.cc", "ops.cc", "simsched.cc", "seams.cc", "tzif.cc", "premain.cc"]
@@ -59,7 +60,7 @@ VARIANTS = {
         har=["-O1", "-g", "-fno-omit-frame-pointer", "-DSIM_TSAN"],
         har_ub=[],
         link=["-fsanitize=thread"],
-        wraps=WRAPS_COMMON + EMUTLS_WRAPS + ["__tsan_atomic%d_%s" % (n, op) for n in (8, 16, 32, 64) for op in TSAN_ATOMICS],
+        wraps=WRAPS_COMMON + EMUTLS_WRAPS + ["__tsan_atomic%d_%s" % (n, op) for n in (8, 16, 32, 64) for op in TSAN_ATOMICS] + ["__tsan_atomic_thread_fence"],
     ),
     "gzero": dict(
         cxx="g++",
